@@ -22,11 +22,21 @@ type lockstepResult struct {
 // lockstep drives es on a fresh validator; compares verdicts per event with the model; reports violations with the
 // given signature prefix. It stops at the first implementation rejection.
 func lockstep(c *fx.Ctx, es []ev.E, cfg *configuration.Configuration, mcfg rulesmodel.Config, sigPrefix string, sigOf func(e ev.E, ctx string) string) lockstepResult {
+	return lockstepW(c, nil, es, cfg, mcfg, sigPrefix, sigOf)
+}
+
+// lockstepW: as lockstep, on a validator that first received the warmup events and was then Reset() (instance reuse).
+func lockstepW(c *fx.Ctx, warmup []ev.E, es []ev.E, cfg *configuration.Configuration, mcfg rulesmodel.Config, sigPrefix string, sigOf func(e ev.E, ctx string) string) lockstepResult {
 	rec := &ev.Recorder{}
 	if cfg == nil {
 		cfg = configuration.New()
 	}
 	r := rules.NewRules(rec, cfg)
+	if warmup != nil {
+		ev.TryDriveAll(r, warmup)
+		r.Reset()
+		rec.Reset()
+	}
 	m := rulesmodel.New(mcfg)
 	res := lockstepResult{accepted: true, rejectedAt: -1, modelAt: -1}
 	for i, e := range es {
@@ -41,7 +51,7 @@ func lockstep(c *fx.Ctx, es []ev.E, cfg *configuration.Configuration, mcfg rules
 		if err == nil && mv == rulesmodel.Reject {
 			c.Violation(sigPrefix+"accepts-invalid("+m.Reason+"):"+sigOf(e, ctxName),
 				fmt.Sprintf("validator ACCEPTS event %d (%s) of [%s] but it must be rejected there", i, e.Key(), ev.Join(es)),
-				rwitness{Events: es[:i+1]})
+				rwitness{Warmup: warmup, Events: es[:i+1]})
 			res.recorded = rec.Events
 			return res // model is dead beyond this point
 		}
@@ -52,7 +62,7 @@ func lockstep(c *fx.Ctx, es []ev.E, cfg *configuration.Configuration, mcfg rules
 			if mv == rulesmodel.Accept {
 				c.Violation(sigPrefix+"rejects-valid:"+sigOf(e, ctxName),
 					fmt.Sprintf("validator REJECTS event %d (%s) of [%s]: %v — but the sequence is valid up to there", i, e.Key(), ev.Join(es), err),
-					rwitness{Events: es[:i+1]})
+					rwitness{Warmup: warmup, Events: es[:i+1]})
 			}
 			res.recorded = rec.Events
 			return res
